@@ -58,9 +58,10 @@ def compile_batch(items, tags=None, run_init=True):
                 if p.returncode != 0 or "init-ok" not in p.stderr + p.stdout:
                     init_fail["_batch"] = (p.stdout + p.stderr)[-2000:]
             # package main outputs: build + run each (init executes, main is empty)
-            for name, src in items:
-                if pkg_of(src) == "main" and name not in errs:
-                    q, berr = b.run_main(name, tags=tags)
+            from concurrent.futures import ThreadPoolExecutor
+            mains = [name for name, src in items if pkg_of(src) == "main" and name not in errs]
+            with ThreadPoolExecutor(6) as ex:       # linking dominates: several at a time
+                for name, (q, berr) in zip(mains, ex.map(lambda n: b.run_main(n, tags=tags), mains)):
                     if q is not None and q.returncode != 0:
                         init_fail[name] = (q.stdout + q.stderr)[-1500:]
         return errs, unstable, init_fail
